@@ -13,6 +13,7 @@ import asyncio
 import random
 from typing import Any
 
+from sim import shadow as SH
 from sim import wire as W
 from sim.gateway import SimGateway
 from sim.world import Run
@@ -77,7 +78,9 @@ def gen(seed: int, tier: str) -> dict[str, Any]:
            "batch": 1 if (rng.random() < 0.75 or mode == "dm_conn") else 3,
            "route_back": rng.random() < 0.2, "first_channel": rng.choice([1, 9, 255]),
            # long runs: at the wrap of the counter the frame numbered 0 overtakes the one numbered 255 (reordered on the way)
-           "swap_at_wrap": long_run and rng.random() < 0.6}
+           "swap_at_wrap": long_run and rng.random() < 0.6,
+           # a second tunnel (own XKNX object, own gateway) lives in the same process and is busy meanwhile
+           "shadow": mode == "tunnel" and rng.random() < 0.15}
     return {"seed": seed, "tier": "S" if cfg["batch"] == 1 else "P", "config": cfg, "ops": ops,
             "fault_policy": policy}
 
@@ -199,7 +202,12 @@ def run(plan: dict[str, Any]) -> dict[str, Any]:
         for op in plan["ops"]:
             loop.at(t0 + op["t"], (lambda o=op: do(o)), label="op")
             tlast = max(tlast, op["t"])
+        sh = None
+        if cfg.get("shadow"):
+            sh = SH.start(R, SH.udp_tunnel_life(R, horizon=tlast + 3.0, seed=plan["seed"], first_channel=cfg["first_channel"],
+                                                period=max(0.02, (tlast + 0.5) / 12), start_after=min(0.3, tlast / 3)))
         await asyncio.sleep(tlast + 4.0)
+        await SH.finish(sh)
         try:
             if mode == "dm_handler":
                 client.stop()
